@@ -459,6 +459,8 @@ def cache_history(job):
                 ev['a'] = a
                 ev['after'] = k
                 ev['full'] = [list(hid[t.txid]) for t in hist[a][k:]]
+                if k:
+                    ev['sameblock'] = [list(hid[t.txid]) for t in hist[a] if t.block_height == hist[a][k - 1].block_height]
                 d[0] = 'gettransactions(%s%s) prov=%s' % (a, (', after its transaction number %d' % k) if k else '', prov)
                 r = srv.gettransactions(addrs[a], after_txid=hist[a][k - 1].txid) if k else srv.gettransactions(addrs[a])
                 if r is False or r is None:
